@@ -139,6 +139,66 @@ theorem writeExponentB_nofault (fmt : Format) (feats : Features) (b : WBuf) (cur
     writeExponentB fmt feats b cursor e c ≠ .fault := by
   unfold writeExponentB; nofault_tac
 
+/-! ## lengths after rounding -/
+
+theorem roundUp_go_length (r : Nat) : ∀ l : List Nat, 1 ≤ (roundUp.go r l).1.length ∧ (roundUp.go r l).1.length ≤ max 1 l.length
+  | [] => by simp [roundUp.go]
+  | d :: rest => by
+    unfold roundUp.go
+    split
+    · simp
+    · have := roundUp_go_length r rest
+      simp only [List.length_cons]; omega
+
+theorem roundUp_length (r : Nat) (ds : List Nat) :
+    1 ≤ (roundUp r ds).1.length ∧ (roundUp r ds).1.length ≤ max 1 ds.length := by
+  unfold roundUp
+  have := roundUp_go_length r ds.reverse
+  simpa using this
+
+theorem roundUp_go_carry (r : Nat) : ∀ l : List Nat, (roundUp.go r l).2 = true → (roundUp.go r l).1 = [1]
+  | [] => by simp [roundUp.go]
+  | d :: rest => by
+    unfold roundUp.go
+    split
+    · simp
+    · exact roundUp_go_carry r rest
+
+theorem roundUp_carry (r : Nat) (ds : List Nat) (h : (roundUp r ds).2 = true) : (roundUp r ds).1 = [1] := by
+  unfold roundUp at h ⊢
+  have := roundUp_go_carry r ds.reverse h
+  simp [this]
+
+/-- after `truncate_and_round_decimal`: between 1 and `min (len, max)` digits; a carry leaves the single digit 1 -/
+theorem truncateAndRound_length (ds : List Nat) (o : WOpts) (hds : 1 ≤ ds.length) (hmx : o.maxDigits ≠ some 0) :
+    1 ≤ (truncateAndRound ds o).1.length ∧ (truncateAndRound ds o).1.length ≤ ds.length ∧
+    (∀ mx, o.maxDigits = some mx → (truncateAndRound ds o).1.length ≤ mx) ∧
+    ((truncateAndRound ds o).2 = true → (truncateAndRound ds o).1 = [1]) := by
+  unfold truncateAndRound
+  cases hm : o.maxDigits with
+  | none => simp [hds]
+  | some mx =>
+    have hmx1 : 1 ≤ mx := by
+      cases mx with
+      | zero => exact absurd hm hmx
+      | succ k => omega
+    simp only
+    by_cases h1 : mx ≥ ds.length
+    · simp only [h1, ↓reduceIte, Option.some.injEq]
+      refine ⟨hds, Nat.le_refl _, ?_, by simp⟩
+      intro m hm'; omega
+    · simp only [h1, ↓reduceIte, Option.some.injEq]
+      have hru := roundUp_length 10 (ds.take mx)
+      have hrc := roundUp_carry 10 (ds.take mx)
+      have htl : (ds.take mx).length = mx := by simp; omega
+      rw [htl] at hru
+      have hmax : max 1 mx = mx := by omega
+      rw [hmax] at hru
+      repeat' split
+      all_goals first
+        | (refine ⟨by simp; omega, by simp; omega, ?_, by simp⟩; intro m hm'; simp; omega)
+        | (refine ⟨hru.1, by omega, ?_, hrc⟩; intro m hm'; omega)
+
 /-- two lists agree when they have the same length and the same `getD` everywhere below it -/
 theorem ext_getD (a b : List Nat) (hl : a.length = b.length) (h : ∀ i, i < a.length → a.getD i 0 = b.getD i 0) : a = b := by
   apply List.ext_getElem hl
